@@ -411,10 +411,12 @@ void hk_idle(void)
 	for (i = 0; i < MAXEV; i++) {
 		if (atomic_load(&ev[i].state) != 1)
 			continue;
-		if (ev[i].last_post_seq > ev[i].last_entry_seq)
+		if (ev[i].last_post_seq > ev[i].last_entry_seq) {
 			mon_viol("C08", "blocked-with-undelivered-post", g_method,
 				 "every thread is blocked (only an unrelated deadline can wake the owner) and event %d of loop %d has an undelivered post (posts %ld, handler entries %ld)",
 				 i, ev[i].owner, (long)ev[i].posts, (long)ev[i].entries);
+			mon_viol("C07", "blocks-while-event-due", g_method, "every thread is blocked although event %d of loop %d has an undelivered post: the loop sleeps while something is due", i, ev[i].owner);
+		}
 	}
 	for (i = 0; i < MAXTK; i++)
 		if (atomic_load(&tks[i].state) == 1)
